@@ -145,20 +145,11 @@ func runC09(c *Check) {
 		isCode := func(t *Term) bool {
 			return t.Op == "field" && t.Name == "Code" && strings.Contains(t.String(), "types.RetrieveWithHelpers(")
 		}
-		// codes for which some store of a non-nil error is *not* forced: a return is reachable avoiding every error store
-		errStores := g.Select(func(n *Node) bool {
-			st, ok := n.In.(*ssa.Store)
-			if !ok {
-				return false
-			}
-			a, ok := st.Addr.(*ssa.Alloc)
-			return ok && types.Identical(a.Type().(*types.Pointer).Elem(), types.Universe.Lookup("error").Type())
-		})
 		var reach map[string][]*Node
-		if len(nilTargets) > 0 && len(errStores) == 0 {
-			reach = g.EnumReach([]*Node{g.Entry}, nodeSet(nilTargets), isCode, consts, nil)
+		if len(nilTargets) == 0 {
+			c.Unk("C09-R2", "fetch ⟂ nil-returns", fn, "", "cannot identify the returns of the fetch function whose error is nil")
 		} else {
-			reach = g.EnumReach([]*Node{g.Entry}, g.AnyExit(), isCode, consts, nodeSet(errStores))
+			reach = g.EnumReach([]*Node{g.Entry}, nodeSet(nilTargets), isCode, consts, nil)
 		}
 		var bad []string
 		for _, k := range sortedKeys(reach) {
@@ -244,9 +235,18 @@ func producedCodes(c *Check, p *Prog) map[string]bool {
 		}
 		st := litStores(lit)
 		if v := st["BaseResult.Code"]; len(v) == 1 {
-			t := TermOf(v[0], ctx).unconv()
-			if name, ok := byVal[t.Name]; ok && t.Op == "const" {
-				out[name] = true
+			all := true
+			for _, t := range flattenPhi(TermOf(v[0], ctx).unconv()) {
+				t = t.unconv()
+				if name, ok := byVal[t.Name]; ok && t.Op == "const" {
+					out[name] = true
+				} else if t.Op == "phi" {
+					// cycle marker
+				} else {
+					all = false
+				}
+			}
+			if all {
 				continue
 			}
 		}
